@@ -453,7 +453,14 @@ func witnessPlainModels() []*openfgav1.AuthorizationModel {
 		Metadata: &openfgav1.Metadata{Relations: map[string]*openfgav1.RelationMetadata{
 			"parent": {DirectlyRelatedUserTypes: []*openfgav1.RelationReference{gen.RefType("doc")}},
 			"viewer": {DirectlyRelatedUserTypes: []*openfgav1.RelationReference{gen.RefType("user"), gen.RefRel("doc", "viewer")}}}}}
-	return []*openfgav1.AuthorizationModel{{SchemaVersion: "1.1", TypeDefinitions: []*openfgav1.TypeDefinition{{Type: "user"}, td}}}
+	// graphs without a single line: no types at all, types only, a relation whose direct assignment names nobody
+	lonely := &openfgav1.TypeDefinition{Type: "doc", Relations: map[string]*openfgav1.Userset{"viewer": gen.This()},
+		Metadata: &openfgav1.Metadata{Relations: map[string]*openfgav1.RelationMetadata{"viewer": {}}}}
+	return []*openfgav1.AuthorizationModel{{SchemaVersion: "1.1", TypeDefinitions: []*openfgav1.TypeDefinition{{Type: "user"}, td}},
+		{SchemaVersion: "1.1"},
+		{SchemaVersion: "1.1", TypeDefinitions: []*openfgav1.TypeDefinition{{Type: "user"}}},
+		{SchemaVersion: "1.1", TypeDefinitions: []*openfgav1.TypeDefinition{{Type: "user"}, {Type: "group"}, {Type: "union"}}},
+		{SchemaVersion: "1.1", TypeDefinitions: []*openfgav1.TypeDefinition{{Type: "user"}, lonely}}}
 }
 
 func dotWorker() {
